@@ -92,6 +92,7 @@ type StreamPlan struct {
 	Echo    bool  `json:"echo,omitempty"`  // server echoes every client message
 	Sizes   []int `json:"sizes,omitempty"` // sizes of client messages
 	PSizes  []int `json:"psizes,omitempty"`
+	RBuf    int   `json:"rbuf,omitempty"` // capacity of the buffer handed to ReadMessage on both ends (0: nil)
 	Readers2 bool `json:"r2,omitempty"` // a second goroutine reads on each end (C10: every blocked reader is released)
 }
 
@@ -203,6 +204,7 @@ type StreamRec struct {
 	ClientBlocked bool
 	Readers       int // client-side ReadMessage calls in progress
 	helperDone    bool
+	reads         int
 	CallBlocked string // "open" / "close" while Conn.NewStream / Stream.Close has not returned
 	CloseErr string
 	Closed bool
@@ -549,6 +551,18 @@ func (s *PStreamIO) Connect(stream rpc.Stream) error { s.s = stream; return nil 
 func (s *PStreamIO) Read(buf []byte, m *PBMsg) error { return s.s.ReadMessage(buf, m) }
 func (s *PStreamIO) Write(m *PBMsg) error            { return s.s.WriteMessage(m) }
 
+// readBuf is the buffer a reader hands to ReadMessage for its n-th read: nil, or a fresh one of the
+// planned capacity, alternately empty and full length (a message may alias it, so it is never reused).
+func readBuf(c, n int) []byte {
+	if c <= 0 {
+		return nil
+	}
+	if n%2 == 0 {
+		return make([]byte, 0, c)
+	}
+	return make([]byte, c)
+}
+
 // StreamSvc is registered as "St<k>" for planned stream k.
 type StreamSvc struct {
 	w *World
@@ -627,11 +641,13 @@ func (ss *StreamSvc) run(read func(*Msg) error, write func(*Msg) error) error {
 }
 
 func (ss *StreamSvc) Run(st *StreamIO) error {
-	return ss.run(func(m *Msg) error { return st.Read(nil, m) }, st.Write)
+	n := 0
+	return ss.run(func(m *Msg) error { n++; return st.Read(readBuf(ss.w.P.Streams[ss.k].RBuf, n), m) }, st.Write)
 }
 
 func (ss *StreamSvc) PRun(st *PStreamIO) error {
-	return ss.run(func(m *Msg) error { return st.Read(nil, (*PBMsg)(m)) }, func(m *Msg) error { return st.Write((*PBMsg)(m)) })
+	n := 0
+	return ss.run(func(m *Msg) error { n++; return st.Read(readBuf(ss.w.P.Streams[ss.k].RBuf, n), (*PBMsg)(m)) }, func(m *Msg) error { return st.Write((*PBMsg)(m)) })
 }
 
 // ---------------------------------------------------------------------------
